@@ -96,9 +96,11 @@ def ref_orth_iter(A, Q0, k):
     return Q[:, o], ev[o]
 
 
-def cluster_cmp(out, Qr, ev, u, n, normA, C=256.0):
+def cluster_cmp(out, Qr, ev, u, n, normA, C=256.0, probe=None):
     """Compare column-cluster projectors of `out` with the reference `Qr` (Rayleigh quotients `ev`, ascending).
-    Returns (ok, n_nonvacuous_clusters, worst_ratio)."""
+    A cluster is comparable iff its gap-aware tolerance is <= 0.1 and (when `probe`, the reference iteration started
+    from a rounding-level perturbation of the estimate, is given) the reference itself is insensitive to such a
+    perturbation there.  Returns (ok, n_nonvacuous_clusters, worst_ratio)."""
     if normA <= 0:
         return True, 0, 0.0
     delta = max(1e3 * n * u, 1e-9) * normA
@@ -110,9 +112,13 @@ def cluster_cmp(out, Qr, ev, u, n, normA, C=256.0):
         tol = max(tol, C * n * u)
         if tol > 0.1:
             continue
+        Pb = Qr[:, a:b] @ Qr[:, a:b].T
+        if probe is not None:
+            Pp = probe[:, a:b] @ probe[:, a:b].T
+            if float((Pp - Pb).norm()) > tol / 8:
+                continue  # ill-conditioned: rounding noise alone moves this cluster
         nonvac += 1
         Pa = out[:, a:b] @ out[:, a:b].T
-        Pb = Qr[:, a:b] @ Qr[:, a:b].T
         r = float((Pa - Pb).norm()) / tol
         worst = max(worst, r)
         if r > 1.0:
@@ -120,21 +126,48 @@ def cluster_cmp(out, Qr, ev, u, n, normA, C=256.0):
     return ok, nonvac, worst
 
 
-def match_orth_iter(out, A64, Q0_64, max_iter, u, C=256.0):
+def match_orth_iter(out, A64, Q0_64, max_iter, u, C=256.0, gen=None):
     """Is `out` the k-fold orthogonal-iteration update of Q0 for SOME 1<=k<=max_iter (Rayleigh-sorted)?
+    Clusters on which the float64 reference is itself sensitive to a rounding-level perturbation of the estimate
+    (unstable fixed points, rank-deficient A@Q) are not compared.
     Returns (matched, best_k, nonvacuous_clusters, worst_ratio_of_best)."""
     n = A64.shape[0]
     normA = float(torch.linalg.matrix_norm(A64, 2)) if n > 0 else 0.0
     out = out.to(D)
     best = None
     Q = Q0_64
+    Qp = None
+    if gen is not None:
+        Qp = torch.linalg.qr(Q0_64 + 8 * u * torch.randn(n, n, generator=gen, dtype=D)).Q
     for k in range(1, max_iter + 1):
         Q = torch.linalg.qr(A64 @ Q).Q
         ev = torch.einsum("ij,ik,kj->j", Q, A64, Q)
         o = ev.argsort()
-        ok, nv, worst = cluster_cmp(out, Q[:, o], ev[o], u, n, normA, C)
+        probe = None
+        if Qp is not None:
+            Qp = torch.linalg.qr(A64 @ Qp).Q
+            evp = torch.einsum("ij,ik,kj->j", Qp, A64, Qp)
+            probe = Qp[:, evp.argsort()]
+        ok, nv, worst = cluster_cmp(out, Q[:, o], ev[o], u, n, normA, C, probe)
         if ok and (best is None or nv > best[1]):
             best = (k, nv, worst)
     if best is None:
         return False, None, 0, float("inf")
     return True, best[0], best[1], best[2]
+
+
+def qr_backward_check(out, A64, Q0_64, u, C=64.0):
+    """One orthogonal-iteration step is backward stable whatever the conditioning: there must be a row permutation
+    (the Rayleigh sort) that makes out^T (A Q0) upper triangular up to C*n*u*||A||.  Returns (ok, worst_ratio)."""
+    n = A64.shape[0]
+    normA = float(torch.linalg.matrix_norm(A64, 2))
+    tol = C * n * u * max(normA, 1e-300)
+    T = (out.to(D).T @ (A64 @ Q0_64)).abs()
+    big = T > tol
+    first = []
+    for r in range(n):
+        nz = torch.nonzero(big[r]).flatten()
+        first.append(int(nz[0]) if nz.numel() else n)
+    first.sort()
+    ok = all(f >= i for i, f in enumerate(first))
+    return ok, first
